@@ -422,8 +422,8 @@ def select(name, recs, names):
             keep = not (r["zorder"] == 100 and r["ls"] == "--")      # the 1:1 line
         elif name in ("impact", "map", "mapimpact") and core and r["kind"] in ("pts", "bar"):
             keep = True
-        elif name == "invreliability" and core and r["kind"] == "line" and r["label"] == "":
-            keep = True                                      # lines of the 2nd, 3rd ... quantile
+        elif name == "invreliability" and core and r["kind"] == "line" and (r["label"] == "" or r["label"].startswith("_child")):
+            keep = True                   # curves of the 2nd, 3rd ... level: label "" (matplotlib stores "_child<n>")
         elif name in ("autocorr", "autocov") and core and r["kind"] == "line":
             keep = True
         elif name in ("obsfcst", "meteo") and r["kind"] == "poly" and r["src"] == "fill":
